@@ -77,7 +77,7 @@ def check(P, R):
 
     # a node created by a split is a bare prefix: it must not keep the route data or the hook of the node it was split from
     sp = P.func(f'{RD}:RadiDict._split')
-    fresh = [c for c in T.calls_to(sp, 'self._make_node') if not any(k.arg in ('data', 'hooks') for k in c.keywords)]
+    fresh = [c for c in T.calls_to(sp, 'self._make_node', '_make_node', 'RadiDict._make_node') if not any(k.arg in ('data', 'hooks') for k in c.keywords)]
     whole = [st for st in walk_shallow(sp.node) if isinstance(st, ast.Assign) and isinstance(st.targets[0], ast.Subscript) and isinstance(st.targets[0].slice, ast.Slice)
              and st.targets[0].slice.lower is None and any(st.value is c for c in fresh)]
     if whole:
